@@ -581,3 +581,65 @@ def compare(case, impl, model):
         return False
     n = d['n'] if d['cmd'] == 'di' else 2 ** max(0, min(d['cap'] - 1, 24))
     return abs(Fraction(vi) - Fraction(vm)) <= envelope(d, n, c=16)
+
+
+# ---- extraction cross-check: the same cases evaluated inside Coq by vm_compute
+from tools import xenc
+COQ_IMPORTS = 'Base.XEnc Model.Poly Model.Quad'
+XCHECK_N = 200
+# the driver names only three error kinds; every other one is printed 'FunctionError other' -> -2 on both sides
+_X_ENC = ('(fun r => match r with Ok v => [0; float_bits v] | Err EMaxIterationsReached => [1; 14] | Err ETooManyVariables => [1; 8] '
+          '| Err EVariableNotFound => [1; 11] | Err _ => [1; -2] | Panic _ => [2] end)')
+
+
+def _x_ipoly(t):
+    terms = []
+    for _ in range(t.int()):
+        c = t.fl()
+        vs = []
+        for _ in range(t.int()):
+            nm = t.cpstr()
+            vs.append('(%s, %s%%float)' % (xenc.cq_str(nm), xenc.coq_float(t.fl())))
+        terms.append('{| t_coef := %s%%float; t_vars := [%s] |}' % (xenc.coq_float(c), '; '.join(vs)))
+    names = [xenc.cq_str(t.cpstr()) for _ in range(t.int())]
+    return '(@i_eval_univariate float FNum {| i_terms := [%s]; i_vars := [%s] |})' % ('; '.join(terms), '; '.join(names))
+
+
+def _x_spoly(t):
+    return '(@s_eval_univariate float FNum {| s_coefs := %s; s_var := Some 120%%N |})' % xenc.cq_floats(t.fvec())
+
+
+def coq_term(case):
+    t = xenc.Toks(case.line)
+    cmd = t.word()
+    fl = lambda: xenc.coq_float(t.fl()) + '%float'
+    if cmd in ('ds', 'di'):
+        if not xenc.keep(case, 12):
+            return None
+        n = t.int()
+        a, b = fl(), fl()
+        f = _x_spoly(t) if cmd == 'ds' else _x_ipoly(t)
+        return '%s (@definite_integral float FNum %s %s %s %d%%N)' % (_X_ENC, f, a, b, n)
+    if cmd in ('rs', 'ri'):
+        if not xenc.keep(case, 16):
+            return None
+        cap = t.int()
+        m = case.meta if isinstance(case.meta, dict) else None
+        levels = min(cap, (m['iters'] or 0) + 1) if m and m.get('sim') == 'ok' else cap
+        if levels > 9:                       # 2^levels integrand evaluations: keep vm_compute light
+            return None
+        tol, a, b = fl(), fl(), fl()
+        f = _x_spoly(t) if cmd == 'rs' else _x_ipoly(t)
+        return '%s (@romberg float FNum %s %s %s %d%%N %s)' % (_X_ENC, f, a, b, cap, tol)
+    return None
+
+
+def encode_result(case, model_line):
+    t = model_line.split()
+    if t[0] == 'ok':
+        return [0, xenc.float_tok_bits(t[1])]
+    if t[0] == 'panic':
+        return [2]
+    assert t[0] == 'err', model_line
+    return [1, {'MaxIterationsReached': 14, 'FunctionError TooManyVariables': 8,
+                'FunctionError VariableNotFound': 11}.get(' '.join(t[1:]), -2)]
